@@ -351,6 +351,10 @@ func classify(err error) string {
 	}
 	var ise *slug.IllegalSlugError
 	if errors.As(err, &ise) {
+		// the error type's own contract: a recognisable message and the cause underneath
+		if !strings.HasPrefix(ise.Error(), "illegal slug error:") || errors.Unwrap(ise) == nil {
+			return "illegal-malformed"
+		}
 		return "illegal"
 	}
 	return "io"
